@@ -294,6 +294,12 @@ def _encode_error_field(e: Exception) -> str:
     return last if last.isidentifier() else "?"
 
 
+def _reports_cover(sim, st: int, a: int, b: int, per: int) -> bool:
+    """Position reports of station `st` keep arriving over [a, b]: no gap longer than two report periods."""
+    ts = [a] + [x["t"] for x in sim.reports if x["st"] == st and a <= x["t"] <= b] + [b]
+    return len(ts) > 2 and all(t2 - t1 <= 2 * per + 1_000 for t1, t2 in zip(ts, ts[1:]))
+
+
 def _op_container(vam: dict):
     try:
         return vam["vam"]["vamParameters"].get("vruClusterOperationContainer")
@@ -508,19 +514,26 @@ def _execute_loop(plan: dict) -> dict:
                 sim.probe("loop:join-not-judged")
                 trace.append(("join", "not-judged"))
                 continue
+            if not (_reports_cover(sim, idx, t0, deadline, per) and _reports_cover(sim, leader_idx, t0, deadline, per_l)):
+                # a join can be demanded to complete only while position reports (the update() calls and the leader's VAMs hang on
+                # them) keep arriving at both stations - also keeps minimised plans honest (removed gnss ops)
+                sim.probe("loop:join-not-judged")
+                trace.append(("join", "not-judged", "reports-stopped"))
+                continue
             if any(rk[0] == "join-not-completed" for rk in w.fired):
                 trace.append(("join", "not-completed", "reported-by-watch"))
+                continue
+            heard = [r_ for r_ in fac.get("heard", fac["received"]) if r_["f"]["sid"] == j["leader"] and r_["f"]["has_info"] and r_["f"]["cid"] == j["cid"]
+                     and t0 + 3_000_000 <= r_["t"] <= deadline]
+            if not heard:
+                # the leader no longer advertises the cluster (it abandoned it - e.g. VRU_ROLE_OFF - before or while the join was
+                # notified, or its VAMs are lost below the facilities): the join legitimately fails, not a clustering verdict
+                sim.probe("loop:join-not-judged")
+                trace.append(("join", "not-judged", "no-cluster-vam"))
                 continue
             if not cfg.get("app_calls_update", True):
                 why = "no-update-calls"
             else:
-                heard = [r_ for r_ in fac.get("heard", fac["received"]) if r_["f"]["sid"] == j["leader"] and r_["f"]["has_info"] and r_["f"]["cid"] == j["cid"]
-                         and t0 + 3_000_000 <= r_["t"] <= deadline]
-                if not heard:
-                    # the leader stopped advertising (or its VAMs were lost below the facilities): not a clustering verdict
-                    sim.probe("loop:join-not-judged")
-                    trace.append(("join", "not-judged", "no-cluster-vam"))
-                    continue
                 why = "bbox/decoded" if any(h["f"]["bbox"] for h in heard) else "no-bbox/decoded"
             sim.violate(ID, "join-not-completed", why if why.endswith("/decoded") else f"closed-loop/{why}", f"station {idx} joined advertised cluster {j['cid']} of station id {j['leader']} at "
                         f"+{(t0 - k.t0_us) / 1e6:.3f} s; not passive by +{(deadline - k.t0_us) / 1e6:.3f} s (state {w.prev.state.name if w.prev.state else '?'}, "
@@ -558,7 +571,10 @@ def _execute_loop(plan: dict) -> dict:
         if w.prev.state is VBSState.VRU_PASSIVE and w.passive is not None and not w.prev.tx:
             silent_for = end - w.passive["last_heard"]
             per = plan["stations"][idx].get("period_ms", 300) * 1000
-            if silent_for > 2_000_000 + 3 * per + 200_000:
+            chance = any(x["st"] == idx and x["t"] >= w.passive["last_heard"] + 2_000_000 + per for x in sim.reports)
+            if not chance:
+                sim.probe("loop:liveness-not-judged-reports-stopped")     # no position report (no update()) after the timer ran out
+            if chance and silent_for > 2_000_000 + 3 * per + 200_000:
                 sim.violate(ID, "leader-lost-not-recovered", "closed-loop/" + ("no-update-calls" if not cfg.get("app_calls_update", True) else "end-of-run"),
                             f"station {idx} is still VRU_PASSIVE and silent {silent_for / 1e6:.3f} s after the last VAM of its leader")
     for o in ops:
